@@ -147,8 +147,16 @@ class Assembled:
             return _Srv()
 
         self.loop.create_server = fake_create_server
-        self.task = self.loop.create_task(srv.start_server(cfg, access_control_config=cfg.get_access_control_config(),
-                                                           enable_rate_limiting=False, log_level="CRITICAL"))
+        # the two documented ways of starting a server from a configuration: the command line's (the policy object is
+        # handed over explicitly) and the library's (start_server(ServerConfig.from_toml(path)) - the policy is the
+        # configuration's); they alternate
+        Assembled._n = getattr(Assembled, "_n", 0) + 1
+        self.library_mode = Assembled._n % 2 == 0
+        if self.library_mode:
+            coro = srv.start_server(cfg, enable_rate_limiting=False, log_level="CRITICAL")
+        else:
+            coro = srv.start_server(cfg, access_control_config=cfg.get_access_control_config(), enable_rate_limiting=False, log_level="CRITICAL")
+        self.task = self.loop.create_task(coro)
         self.loop.run_idle()
         if "factory" not in captured:
             raise tlc.TLCError("start_server did not reach create_server: %r" % (self.task,))
